@@ -89,7 +89,7 @@ CONCRETE = {
 }
 
 
-def dist_case(M, system, rows, neutral_kind, zero_row, relative=True):
+def dist_case(M, system, rows, neutral_kind, zero_row, relative=True, zero_entry=False):
     """chromatic scaling on a concrete system; symbolic (or sampled) non-negative targets"""
     from dreye.api.estimator import ReceptorEstimator
     from dreye.api.barycentric import barycentric_dim_reduction
@@ -99,8 +99,14 @@ def dist_case(M, system, rows, neutral_kind, zero_row, relative=True):
     est = ReceptorEstimator(symnp.const(cF) if M.symbolic else cF, domain=1.0, K=np.array(cfg["K"]), baseline=np.array(cfg["base"]))
     est.register_system(symnp.const(cS) if M.symbolic else cS, lb=np.zeros(cS.shape[0]), ub=np.ones(cS.shape[0]))
     Bq = M.real("B", (rows, m), sample=lambda r, s: r.uniform(0.2, 3.0, size=s) * r.choice([1.0, 0.05, 0.02], size=s))
-    for v in np.asarray(Bq).ravel():
-        M.assume(v > 0)
+    if zero_entry:
+        # a pure-receptor target: one capture exactly zero (its chromaticity is a corner of the simplex, outside every real system's chromatic gamut)
+        Bq = np.array(Bq, dtype=object if M.symbolic else float)
+        Bq[0, -1] = S(z3.RealVal(0)) if M.symbolic else 0.0
+        Bq = Bq.view(symnp.SymArray) if M.symbolic else Bq
+    for idx in np.ndindex(*np.asarray(Bq).shape):
+        if not (zero_entry and idx == (0, np.asarray(Bq).shape[1] - 1)):
+            M.assume(np.asarray(Bq)[idx] > 0)
     parts = [np.asarray(Bq)]
     if zero_row:
         parts.append(symnp.const(np.zeros((1, m))) if M.symbolic else np.zeros((1, m)))
@@ -167,6 +173,9 @@ def cases(tier, seed):
         for zero_row in (False, True):
             add(f"distance scaling dichromat neutral={neutral_kind} zero-row={zero_row}", "dist_case", system="di", rows=2, neutral_kind=neutral_kind, zero_row=zero_row,
                 opts=dict(n_validate=2, max_paths=400, timeout_ms=30000))
+    for neutral_kind in ("default", "given"):
+        add(f"distance scaling dichromat neutral={neutral_kind} pure-receptor target (exact zero capture)", "dist_case", system="di", rows=2, neutral_kind=neutral_kind, zero_row=False,
+            zero_entry=True, opts=dict(n_validate=2, max_paths=400, timeout_ms=30000))
     # Chromatic (distance) scaling for tri-/tetrachromats is NOT decided: `dist_case` above runs the real hull_dist_scaling in exact algebraic arithmetic, but every comparison
     # on the way (zero rows, `alphas <= 0`, nanmin) involves sums of sqrt-constants and divisions by chromaticity sums; z3 neither folds them nor
     # honours its timeout on them (probed: minutes per comparison, see DESIGN.md).  Only the caller-array clause of that function is exercised (C14).
